@@ -107,7 +107,12 @@ func View(cfg interface{}) (*KeyView, error) {
 			v.Table[party.ID(id)] = pt
 			xs = append(xs, oracle.IDScalar(id))
 			pts = append(pts, pt)
-			aux += id + ":" + protos.Canon(p.ElGamal) + "|" + protos.Canon(p.Paillier) + "|" + protos.Canon(p.Pedersen) + ";"
+			if p.ElGamal == nil || p.Paillier == nil || p.Pedersen == nil {
+				return nil, fmt.Errorf("public entry of %s lacks auxiliary keys", id)
+			}
+			// by value (the objects carry cached, representation-dependent data)
+			aux += id + ":" + protos.Canon(p.ElGamal) + "|" + p.Paillier.N().Big().Text(16) + "|" + p.Pedersen.N().Big().Text(16) + "," +
+				p.Pedersen.S().Big().Text(16) + "," + p.Pedersen.T().Big().Text(16) + ";"
 		}
 		aux += "rid:" + protos.Canon([]byte(c.RID))
 		v.Aux = aux
